@@ -1,11 +1,14 @@
 package main
 
 import (
+	"bytes"
 	"context"
+	"encoding/json"
 	"flag"
 	"fmt"
 	"io"
 	"os"
+	"os/exec"
 	"reflect"
 	"strings"
 	"sync"
@@ -63,10 +66,16 @@ type c07h struct {
 	sm      *summary
 	cases   []*c07case
 	timeout time.Duration
+	seed    uint64
+	tier    string
+	out     string
+	child   int // >= 0: this process only runs scenario number child and prints what it observed
 }
 
 // job collects the cases of one generated scenario; ids are assigned in generation order afterwards.
 type c07job struct {
+	idx   int
+	a     *c07A
 	run   func(j *c07job)
 	cases []*c07case
 	other []refMismatch // reference-only comparisons (no Coq case)
@@ -510,13 +519,12 @@ func (a *c07A) hold() bool {
 	return false
 }
 
-// runA runs one script-calls-host scenario on the implementation and records the two crossings.
-func (h *c07h) runA(j *c07job, a *c07A, region string) {
+// execA runs one script-calls-host scenario on the implementation: what the host function received
+// (per call), what the sink received, the script's Out, the first failure.
+func (h *c07h) execA(a *c07A) (received [][]*cval, sunk []*cval, out, failed, src string) {
 	sig := a.sig
 	env := c07hostEnv()
 	var mu sync.Mutex
-	var received [][]*cval
-	var sunk []*cval
 	called := make(chan struct{}, 8)
 	impl := env.mkFunc(a.spec, 0)
 	F := reflect.MakeFunc(sig.rt, func(in []reflect.Value) []reflect.Value {
@@ -571,11 +579,11 @@ func (h *c07h) runA(j *c07job, a *c07A, region string) {
 		})
 	}
 	reg := newC07reg()
-	src := a.source(reg)
+	src = a.source(reg)
 	run := c07new(extra)
 	run.eval(src, h.timeout)
 	run.eval("Run()", h.timeout)
-	out := run.evalString("Out", h.timeout)
+	out = run.evalString("Out", h.timeout)
 	if a.shape == "go" && run.failed == "" {
 		select {
 		case <-called:
@@ -583,6 +591,71 @@ func (h *c07h) runA(j *c07job, a *c07A, region string) {
 			run.failed = "timeout:goroutine never called the host function"
 		}
 	}
+	mu.Lock()
+	defer mu.Unlock()
+	received = append([][]*cval(nil), received...)
+	return received, sunk, out, run.failed, src
+}
+
+// c07childOut is what a child process reports for one scenario (a panic in a goroutine started by
+// the script — "go host.F(...)" — cannot be recovered: such scenarios run in a child of this binary).
+type c07childOut struct {
+	N      int      `json:"n"`
+	Recv   []string `json:"recv"`
+	Why    string   `json:"why"`
+	Failed string   `json:"failed"`
+}
+
+func (h *c07h) execAchild(idx int, a *c07A) (received [][]*cval, failed string) {
+	self, _ := os.Executable()
+	ctx, cancel := context.WithTimeout(context.Background(), 3*h.timeout)
+	defer cancel()
+	cmd := exec.CommandContext(ctx, self, "c07", "-seed", fmt.Sprint(h.seed), "-tier", h.tier, "-child", fmt.Sprint(idx), "-out", h.out)
+	var ob, eb bytes.Buffer
+	cmd.Stdout, cmd.Stderr = &ob, &eb
+	err := cmd.Run()
+	var co c07childOut
+	if json.Unmarshal(ob.Bytes(), &co) != nil {
+		if ctx.Err() != nil {
+			return nil, "timeout"
+		}
+		return nil, "host-crash:" + firstLine(fmt.Sprint(err)) + ":" + c07short(c07lastPanicLine(eb.String()))
+	}
+	for k := 0; k < co.N; k++ {
+		var obs []*cval
+		for i, t := range a.sig.In {
+			obs = append(obs, c07parse(t, co.Recv[k*len(a.sig.In)+i]))
+		}
+		received = append(received, obs)
+	}
+	return received, co.Failed
+}
+
+func c07lastPanicLine(stderr string) string {
+	for _, l := range strings.Split(stderr, "\n") {
+		if strings.HasPrefix(l, "panic:") || strings.HasPrefix(l, "fatal error:") {
+			return l
+		}
+	}
+	return firstLine(stderr)
+}
+
+// runA runs one script-calls-host scenario and records the two crossings.
+func (h *c07h) runA(j *c07job, a *c07A, region string) {
+	sig := a.sig
+	env := c07hostEnv()
+	act := c07actuals(a.mode, a.args)
+	var received [][]*cval
+	var sunk []*cval
+	var out, src string
+	run := &c07run{}
+	if a.shape == "go" && h.child < 0 {
+		src = a.source(newC07reg())
+		received, run.failed = h.execAchild(j.idx, a)
+	} else {
+		received, sunk, out, run.failed, src = h.execA(a)
+	}
+	var mu sync.Mutex
 	in := map[string]any{"stream": "script-calls-host", "signature": c07sigString(sig), "mode": a.mode, "shape": a.shape, "argform": a.form,
 		"args": c07valStrings(act), "script": src}
 	j.evals++
@@ -901,11 +974,12 @@ func runC07(args []string) error {
 	seed := fs.Uint64("seed", envSeed(), "seed")
 	dump := fs.Bool("dump", false, "print every case whose observation differs from the reference")
 	show := fs.Int("show", 0, "print the script of this case id")
+	child := fs.Int("child", -1, "internal: run only this scenario and print what the host observed")
 	fs.Parse(args)
 	if err := os.MkdirAll(*out, 0o755); err != nil {
 		return err
 	}
-	h := &c07h{sm: newSummary("C07"), timeout: 30 * time.Second}
+	h := &c07h{sm: newSummary("C07"), timeout: 30 * time.Second, seed: *seed, tier: *tier, child: *child, out: *out}
 	nA, nB := 260, 200
 	nReg := 3
 	if *tier == "thorough" {
@@ -917,7 +991,7 @@ func runC07(args []string) error {
 	var jobs []*c07job
 	for k := 0; k < nA; k++ {
 		a := h.genA(root.fork(), "")
-		jobs = append(jobs, &c07job{run: func(j *c07job) { h.runA(j, a, "") }})
+		jobs = append(jobs, &c07job{a: a, run: func(j *c07job) { h.runA(j, a, "") }})
 	}
 	for _, region := range []string{"variadic-empty", "defer-spread", "defer-callback"} {
 		for k := 0; k < nReg; k++ {
@@ -935,6 +1009,23 @@ func runC07(args []string) error {
 		jobs = append(jobs, &c07job{run: func(j *c07job) { h.runB(j, b, "variadic-slice-arg") }})
 	}
 	h.extraJobs(root, *tier, &jobs)
+	for i, j := range jobs {
+		j.idx = i
+	}
+	if h.child >= 0 {
+		if h.child >= len(jobs) || jobs[h.child].a == nil {
+			return fmt.Errorf("no such scenario")
+		}
+		a := jobs[h.child].a
+		received, _, _, failed, _ := h.execA(a)
+		co := c07childOut{N: len(received), Failed: failed}
+		for _, obs := range received {
+			for _, v := range obs {
+				co.Recv = append(co.Recv, v.String())
+			}
+		}
+		return json.NewEncoder(os.Stdout).Encode(co)
+	}
 	parallelMap(len(jobs), 0, func(i int) { jobs[i].run(jobs[i]) })
 	for _, j := range jobs {
 		for _, c := range j.cases {
